@@ -479,7 +479,7 @@ def rule_z7(repo):
     """The goal sent to Z3 went through fologic.simplify / nnf: each of their cases must keep the truth table."""
     from .c18 import converter_rule
     return converter_rule(repo, 'C06.Z7', [('prover/fologic.py', 'simplify1'), ('prover/fologic.py', 'simplify'), ('prover/fologic.py', 'nnf')],
-                          {'simplify1', 'simplify', 'nnf'}, floor=35)
+                          {'simplify1', 'simplify', 'nnf'}, floor=30)
 
 
 def rule_z8(repo):
